@@ -233,6 +233,19 @@ def run(chk, repo):
             continue
         unit_slots[units[0]] = slot
         check_handler(chk, repo, w, t, h, 'C07.b', expect_slot=slot)
+        # the isolation handler must see EVERY failure of the unit: it is a catch-all and no typed handler in front of it escapes
+        catch_all = h.type is None or unparse(h.type) in ('Exception', 'BaseException')
+        chk.ob('C07.b', f"{units[0]}: the skip_failed handler is a catch-all", repo.loc(w, h), catch_all,
+               f"the skip_failed handler only catches {unparse(h.type) if h.type is not None else ''}: other failures of the unit abort the run despite --skip-failed",
+               key=f"{WRAPPER}::{units[0]}::catch-all", fn=w.qual)
+        for h2 in t.handlers:
+            if h2 is h:
+                break
+            escapes = any(isinstance(n, ast.Raise) for st in h2.body for n in ast.walk(st)) and (t, h2) not in hs
+            chk.ob('C07.b', f"{units[0]}: handler '{norm_stmt(h2)}' in front of the isolation handler does not escape it", repo.loc(w, h2), not escapes,
+                   f"'{norm_stmt(h2)}' raises without consulting skip_failed: that class of failure (e.g. a time-out that cannot be cured by the "
+                   "complexity-reduction retry) leaves the per-unit isolation and aborts the whole run although --skip-failed was given",
+                   key=f"{WRAPPER}::{units[0]}::escape::{norm_stmt(h2)}", fn=w.qual)
     for u in UNIT_CALLERS:
         chk.ob('C07.b', f"unit caller {u} is wrapped by a skip_failed try", w.where, u in unit_slots,
                f"{u} is not called inside a per-unit try with a skip_failed handler", key=f"{WRAPPER}::unwrapped::{u}", fn=w.qual)
